@@ -11,7 +11,7 @@ git -C /repo worktree remove --force $W 2>/dev/null || true
 rm -rf $W $W-lean $W-out
 git -C /repo worktree add -q --detach $W HEAD
 git -C $W apply $S/patch.diff
-cp -r /verif/lean $W-lean
+rsync -a --exclude "driver.[0-9]*" /verif/lean/ $W-lean/ || rsync -a --exclude "driver.[0-9]*" /verif/lean/ $W-lean/
 mkdir -p $W-out
 rc=0
 for P in $PROPS; do
